@@ -109,10 +109,6 @@ def compare_run(check, beh, real, key_prefix):
     if not real["data_same"] or not real["bases_same"]:
         check.violation(key_prefix + ":caller-data-modified", dict(cfg=cfg))
         ok = False
-    if not real.get("args_same", True):
-        check.violation(key_prefix + ":caller-arguments-modified",
-                        dict(cfg=cfg, why="the optimizer_args / scheduler_args dictionary the caller passed was changed by fit()"))
-        ok = False
     return ok
 
 
